@@ -172,6 +172,8 @@ def run(ctx):
     parsed_integers_not_unwrapped(ctx, "R16-j")
     constant_subtraction_preconditions(ctx, "R16-n")
     fallible_results_not_unwrapped(ctx, "R16-o")
+    panic_arms_are_excluded_by_callers(ctx, "R16-p")
+    kind_comparators_are_total_orders(ctx, "R16-q")
     token_loops_make_progress(ctx, "R16-k")
     dependency_preconditions(ctx, "R16-l")
     stdin_never_reaches_file_emitters(ctx, "R16-m")
@@ -900,3 +902,244 @@ def fallible_results_not_unwrapped(ctx, rid):
                             "the callee fails for ordinary inputs (%s); the unwrap turns that into a panic" %
                             ("something does not fit the width" if rewriter else "text that is not in the expected form"), [u.loc()])
     r.floor(rid, n, 5, "unwrap / expect sites on results of workspace functions")
+
+
+# variants that only macro expansion / later compiler passes create, never the parser on source text
+NOT_FROM_PARSER = {"Invisible", "Err", "Dummy", "IncludedBytes", "FormatArgs", "ImplicitSelf", "CVarArgs"}
+# rustc predicates on node kinds and the variants their `true` answer admits
+PREDICATES = {"LitKind::is_str": {"Str"}, "LitKind::is_bytestr": {"ByteStr"}, "LitKind::is_numeric": {"Int", "Float"}}
+
+
+def panic_arms_are_excluded_by_callers(ctx, rid):
+    """R16-p: a `match` on the kind of an AST node that panics for some variants is only reached with the other variants"""
+    import common
+    from common import op_local, edge_dominates
+    p, r = ctx.p, ctx.r
+    r.rule(rid, "exhaustiveness with preconditions: a switch on the discriminant of a rustc_ast node kind (ItemKind, AssocItemKind, "
+                "ExprKind, …) one of whose edges leads straight to `unreachable!()` / `panic!` states that those variants cannot "
+                "arrive.  When the tested place is (part of) a parameter, every call site is examined: the call must be dominated "
+                "by an edge of a switch *on the same place* in the caller that routes none of the panicking variants to it; a caller "
+                "that merely forwards its own parameter passes the obligation on to its callers (three levels).  The parser builds "
+                "every variant (`impl S { reuse a::b; }` is an AssocItemKind::Delegation), so a dispatcher that panics on the rest "
+                "is a crash on valid input")
+    fns = [f for f in p.by_crate["rustfmt_nightly"] if "::tests::" not in f.id and "::test::" not in f.id]
+
+    def panic_block(f, bb, depth=0):
+        t = f.term(bb)
+        here = [x for x in f.calls() if x.bb == bb]
+        if t[0] == "call" and here:
+            if "core::panicking" in here[0].name or "std::rt::begin_panic" in here[0].name:
+                return here[0]
+            if depth < 3 and t[4] is not None and ("fmt::Arguments" in here[0].name or "Argument" in here[0].name):
+                return panic_block(f, t[4], depth + 1)
+        if t[0] == "goto" and depth < 3:
+            return panic_block(f, t[1], depth + 1)
+        return None
+
+    def kind_switches(f):
+        """[(place key, switch bb, {target: set(variants)}, all variants, line, enum)]"""
+        out = []
+        for bb, i, st in f.stmts():
+            if st[0] == "=" and st[2][0] == "discr" and str(st[2][2]).startswith("rustc_ast::") and not st[1][1]:
+                names = {int(v): nme for v, nme in st[2][3]}
+                key = common._norm_place(f, st[2][1][0], st[2][1][1])
+                for sb in range(len(f.blocks)):
+                    t = f.term(sb)
+                    if t[0] == "switch" and op_local(t[1]) == st[1][0]:
+                        tg = {}
+                        listed = set()
+                        for v, target in t[2]:
+                            if int(v) in names:
+                                tg.setdefault(target, set()).add(names[int(v)])
+                                listed.add(names[int(v)])
+                        rest = set(names.values()) - listed
+                        if rest and t[3] is not None:
+                            tg.setdefault(t[3], set()).update(rest)
+                        out.append((key, sb, tg, set(names.values()), st[3], str(st[2][2])))
+        return out
+
+    ks = {f.id: kind_switches(f) for f in fns}
+    obligations = []      # (callee, param index, sub-path, panicking variants, line, enum)
+    for f in fns:
+        for key, sb, tg, allv, line, en in ks[f.id]:
+            bad = set()
+            for target, vs in tg.items():
+                if panic_block(f, target):
+                    bad |= vs
+            if not bad:
+                continue
+            root, path = key
+            if 1 <= root <= f.argc and f.kind != "Closure":
+                obligations.append((f, root, path, bad, line, en))
+    callers = {}
+    for g in fns:
+        for c in g.calls():
+            if c.resolved:
+                callers.setdefault(c.resolved, []).append((g, c))
+
+    def excluded(f, pi, path, bad, depth, seen):
+        """list of (caller, call) sites that may pass a panicking variant"""
+        out = []
+        for g, c in callers.get(f.id, []):
+            if (g.id, c.bb) in seen or len(c.args) < pi:
+                continue
+            seen.add((g.id, c.bb))
+            a = c.args[pi - 1]
+            if a[0] == "k":
+                continue
+            r0, p0 = common._norm_place(g, a[1][0], a[1][1])
+            if p0[-1:] == ("&",):
+                want = (r0, p0[:-1] + (path[1:] if path[:1] == ("*",) else path))
+            else:
+                want = (r0, p0 + path)
+            guards = [(sb, tg) for key, sb, tg, allv, line, en in ks.get(g.id, []) if key == want]
+            ok = False
+            # the argument is built on the spot with a known variant (`FnKind::Fn(..)`)
+            if not a[1][1] and not path:
+                d0 = g.single_def(a[1][0])
+                if d0 and d0[1] == "assign" and d0[2][2][0] == "agg" and isinstance(d0[2][2][1], list) and d0[2][2][1][0] == "adt" \
+                        and d0[2][2][1][2] not in bad:
+                    ok = True
+            # a rustc predicate with a known meaning guards the call (`lit.kind.is_str()`)
+            for d in g.calls():
+                vs = PREDICATES.get(d.name.rsplit("::", 2)[-2].split("<")[0] + "::" + d.name.rsplit("::", 1)[-1]) if d.name.count("::") >= 2 else None
+                if vs is None or vs & bad or not d.args or d.args[0][0] == "k" or d.dest[1]:
+                    continue
+                r1, p1 = common._norm_place(g, d.args[0][1][0], d.args[0][1][1])
+                if p1[-1:] == ("&",):
+                    p1 = p1[:-1]
+                if (r1, p1) != want:
+                    continue
+                for sw, tt, ff in common.bool_branches(g, d.dest[0]):
+                    if tt is not None and edge_dominates(g, (sw, tt), c.bb):
+                        ok = True
+            for sb, tg in guards:
+                for target, vs in tg.items():
+                    if not (vs & bad) and target is not None and edge_dominates(g, (sb, target), c.bb):
+                        ok = True
+            if ok:
+                continue
+            if 1 <= r0 <= g.argc and g.kind != "Closure" and depth > 0 and callers.get(g.id):
+                sub = want[1]
+                out += excluded(g, r0, sub, bad, depth - 1, seen)
+                continue
+            out.append((g, c))
+        return out
+
+    exc = {e["function"]: e["reason"] for e in ctx.table("C16").get("kind_precondition", [])}
+    n = 0
+    for f, pi, path, bad, line, en in obligations:
+        bad = bad - NOT_FROM_PARSER
+        if not bad:
+            continue
+        n += 1
+        if short(f.id) in exc:
+            r.instance(rid, "%s panics for some %s variants" % (short(f.id), en.rsplit("::", 1)[-1]), "ok", "%s:%d" % (f.file, line),
+                       "precondition by construction: %s" % exc[short(f.id)][:100])
+            continue
+        sites = excluded(f, pi, path, bad, 3, set())
+        label = "%s panics for %s::{%s}" % (short(f.id), en.rsplit("::", 1)[-1], ", ".join(sorted(bad))[:80])
+        r.instance(rid, label, "violation" if sites else "ok", "%s:%d" % (f.file, line),
+                   "every call site excludes them" if not sites else "reachable from %s" % sorted({short(g.id) for g, c in sites})[:3])
+        if sites:
+            g, c = sites[0]
+            r.violation(rid, "%s can be reached with a variant it panics on (%s::{%s})" % (short(f.id), en.rsplit("::", 1)[-1],
+                                                                                          ", ".join(sorted(bad))[:60]),
+                        "%s calls it (directly or through forwarding functions) without a dominating match on the same node kind that "
+                        "keeps those variants away" % short(g.id), ["%s:%d" % (f.file, line), c.loc()])
+    r.floor(rid, n, 5, "kind switches with panicking arms on a parameter")
+
+
+def kind_comparators_are_total_orders(ctx, rid):
+    """R16-q: a comparator that orders AST items by their kind is a strict weak order at the level of kinds"""
+    import re
+    from absint import explore, vkey, TooManyPaths
+    p, r = ctx.p, ctx.r
+    r.rule(rid, "`slice::sort_by` panics (\"user-provided comparison function does not correctly implement a total order\") or "
+                "leaves the slice in an unspecified order when its comparator is inconsistent.  For every workspace closure / function "
+                "that returns `Ordering` and branches on the kind of *both* of its arguments (the comparator of "
+                "visit_impl_items under reorder_impl_items), the decision table over pairs of kinds is extracted by path "
+                "exploration and checked: (1) for different kinds A, B the answer is the same on every path and cmp(B, A) is its "
+                "reverse; (2) cmp(A, A) is Equal or a comparison of keys, or — when sub-classes are told apart by further tests — "
+                "contains Less and Greater together; (3) kinds that compare Equal are interchangeable against every third kind; "
+                "(4) the order on kinds is transitive")
+    KD = re.compile(r"^discr\((arg\d+)\.(.*kind)\)$")
+    n = 0
+    for f in p.by_crate["rustfmt_nightly"]:
+        if "std::cmp::Ordering" != f.locals[0].strip() or "::tests::" in f.id:
+            continue
+        try:
+            paths = explore(f, pure=lambda c: True, max_paths=20000, program=p)
+        except TooManyPaths:
+            continue
+        rows = []
+        args = set()
+        universe = set()
+        for path in paths:
+            if path.end != "ret" or path.ret is None:
+                continue
+            cons = {}
+            extra = False
+            for k, v in path.decisions:
+                m = KD.match(k)
+                if not m:
+                    extra = True
+                    continue
+                a = m.group(1)
+                args.add(a)
+                allowed = {v[1]} if isinstance(v, tuple) and v[0] == "variant" else set(v[1]) if isinstance(v, tuple) else {str(v)}
+                universe |= allowed
+                cons[a] = cons.get(a, allowed) & allowed if a in cons else set(allowed)
+            out = vkey(path.ret)
+            out = out if out in ("Less", "Equal", "Greater") else "key"
+            rows.append((cons, out, extra))
+        if len(args) != 2 or len(universe) < 3:
+            continue
+        n += 1
+        a1, a2 = sorted(args)
+        kinds = sorted(universe)
+        table = {}
+        for A in kinds:
+            for B in kinds:
+                outs = set()
+                for cons, out, extra in rows:
+                    if A in cons.get(a1, universe) and B in cons.get(a2, universe):
+                        outs.add((out, extra))
+                table[(A, B)] = outs
+        problems = []
+        rev = {"Less": "Greater", "Greater": "Less", "Equal": "Equal", "key": "key"}
+        rel = {}
+        for A in kinds:
+            for B in kinds:
+                outs = {o for o, e in table[(A, B)]}
+                if A == B:
+                    if not outs <= {"Equal", "key"} and not ({"Less", "Greater"} <= outs and any(e for o, e in table[(A, B)])):
+                        problems.append("cmp(%s, %s) can only answer %s" % (A, B, sorted(outs)))
+                    continue
+                if len(outs) != 1:
+                    problems.append("cmp(%s, %s) answers %s depending on something other than the kinds" % (A, B, sorted(outs)))
+                    continue
+                o = next(iter(outs))
+                rel[(A, B)] = o
+        for (A, B), o in rel.items():
+            back = rel.get((B, A))
+            if back is not None and back != rev[o]:
+                problems.append("cmp(%s, %s) = %s but cmp(%s, %s) = %s" % (A, B, o, B, A, back))
+        for (A, B), o in rel.items():
+            if o in ("Equal", "key"):
+                for C in kinds:
+                    if C not in (A, B) and rel.get((A, C)) != rel.get((B, C)):
+                        problems.append("%s and %s compare %s but differ against %s (%s / %s)" % (A, B, o, C, rel.get((A, C)), rel.get((B, C))))
+        for A in kinds:
+            for B in kinds:
+                for C in kinds:
+                    if len({A, B, C}) == 3 and rel.get((A, B)) == "Less" and rel.get((B, C)) == "Less" and rel.get((A, C)) not in ("Less",):
+                        problems.append("%s < %s < %s but cmp(%s, %s) = %s" % (A, B, C, A, C, rel.get((A, C))))
+        where = "%s:%d" % (f.file, f.line)
+        name = short(f.id).split("::{closure")[0]
+        r.instance(rid, "comparator in %s over %d kinds" % (name, len(kinds)), "violation" if problems else "ok", where,
+                   "%d paths" % len(rows))
+        if problems:
+            r.violation(rid, "the kind comparator in %s is not a consistent order" % name,
+                        "; ".join(sorted(set(problems))[:4]), [where])
+    r.floor(rid, n, 1, "comparators that branch on the kinds of both arguments")
